@@ -61,6 +61,34 @@ module Z =
        | Zpos y' -> pos_sub y' x'
        | Zneg y' -> Zneg (Pos.add x' y'))
 
+  (** val opp : coq_Z -> coq_Z **)
+
+  let opp = function
+  | Z0 -> Z0
+  | Zpos x0 -> Zneg x0
+  | Zneg x0 -> Zpos x0
+
+  (** val sub : coq_Z -> coq_Z -> coq_Z **)
+
+  let sub m n =
+    add m (opp n)
+
+  (** val mul : coq_Z -> coq_Z -> coq_Z **)
+
+  let mul x y =
+    match x with
+    | Z0 -> Z0
+    | Zpos x' ->
+      (match y with
+       | Z0 -> Z0
+       | Zpos y' -> Zpos (Pos.mul x' y')
+       | Zneg y' -> Zneg (Pos.mul x' y'))
+    | Zneg x' ->
+      (match y with
+       | Z0 -> Z0
+       | Zpos y' -> Zneg (Pos.mul x' y')
+       | Zneg y' -> Zpos (Pos.mul x' y'))
+
   (** val compare : coq_Z -> coq_Z -> comparison **)
 
   let compare x y =
@@ -76,4 +104,96 @@ module Z =
       (match y with
        | Zneg y' -> coq_CompOpp (Pos.compare x' y')
        | _ -> Lt)
+
+  (** val leb : coq_Z -> coq_Z -> bool **)
+
+  let leb x y =
+    match compare x y with
+    | Gt -> false
+    | _ -> true
+
+  (** val ltb : coq_Z -> coq_Z -> bool **)
+
+  let ltb x y =
+    match compare x y with
+    | Lt -> true
+    | _ -> false
+
+  (** val eqb : coq_Z -> coq_Z -> bool **)
+
+  let eqb x y =
+    match x with
+    | Z0 -> (match y with
+             | Z0 -> true
+             | _ -> false)
+    | Zpos p -> (match y with
+                 | Zpos q -> Pos.eqb p q
+                 | _ -> false)
+    | Zneg p -> (match y with
+                 | Zneg q -> Pos.eqb p q
+                 | _ -> false)
+
+  (** val max : coq_Z -> coq_Z -> coq_Z **)
+
+  let max n m =
+    match compare n m with
+    | Lt -> m
+    | _ -> n
+
+  (** val min : coq_Z -> coq_Z -> coq_Z **)
+
+  let min n m =
+    match compare n m with
+    | Gt -> m
+    | _ -> n
+
+  (** val pos_div_eucl : positive -> coq_Z -> coq_Z * coq_Z **)
+
+  let rec pos_div_eucl a b =
+    match a with
+    | Coq_xI a' ->
+      let (q, r) = pos_div_eucl a' b in
+      let r' = add (mul (Zpos (Coq_xO Coq_xH)) r) (Zpos Coq_xH) in
+      if ltb r' b
+      then ((mul (Zpos (Coq_xO Coq_xH)) q), r')
+      else ((add (mul (Zpos (Coq_xO Coq_xH)) q) (Zpos Coq_xH)), (sub r' b))
+    | Coq_xO a' ->
+      let (q, r) = pos_div_eucl a' b in
+      let r' = mul (Zpos (Coq_xO Coq_xH)) r in
+      if ltb r' b
+      then ((mul (Zpos (Coq_xO Coq_xH)) q), r')
+      else ((add (mul (Zpos (Coq_xO Coq_xH)) q) (Zpos Coq_xH)), (sub r' b))
+    | Coq_xH ->
+      if leb (Zpos (Coq_xO Coq_xH)) b
+      then (Z0, (Zpos Coq_xH))
+      else ((Zpos Coq_xH), Z0)
+
+  (** val div_eucl : coq_Z -> coq_Z -> coq_Z * coq_Z **)
+
+  let div_eucl a b =
+    match a with
+    | Z0 -> (Z0, Z0)
+    | Zpos a' ->
+      (match b with
+       | Z0 -> (Z0, a)
+       | Zpos _ -> pos_div_eucl a' b
+       | Zneg b' ->
+         let (q, r) = pos_div_eucl a' (Zpos b') in
+         (match r with
+          | Z0 -> ((opp q), Z0)
+          | _ -> ((opp (add q (Zpos Coq_xH))), (add b r))))
+    | Zneg a' ->
+      (match b with
+       | Z0 -> (Z0, a)
+       | Zpos _ ->
+         let (q, r) = pos_div_eucl a' b in
+         (match r with
+          | Z0 -> ((opp q), Z0)
+          | _ -> ((opp (add q (Zpos Coq_xH))), (sub b r)))
+       | Zneg b' -> let (q, r) = pos_div_eucl a' (Zpos b') in (q, (opp r)))
+
+  (** val modulo : coq_Z -> coq_Z -> coq_Z **)
+
+  let modulo a b =
+    let (_, r) = div_eucl a b in r
  end
